@@ -25,7 +25,7 @@ func (s vInnerSz) MTU() int                             { return s.mtu }
 func (s vInnerSz) Close() error                         { return nil }
 func (s vInnerSz) ParseAddr(data []byte) (vAddr, error) { return 0, nil }
 
-// verif: cover=refused,first-fragment bounds="fragswarm.Tell: inner MTU 16..65536, configured MTU 0..2^20, payload length 0..MTU+1 (all symbolic): over MTU refused with the MTU error before anything is sent; otherwise never refused for size, every fragment fits the inner MTU and the announced fragment count is the true count"
+// verif: cover=refused,first-fragment bounds="fragswarm.Tell after any number of earlier messages (symbolic 32-bit message id): inner MTU 16..65536, configured MTU 0..2^20, payload length 0..MTU+1 (all symbolic): over MTU refused with the MTU error before anything is sent; otherwise never refused for size, every fragment fits the inner MTU and the announced fragment count is the true count"
 func VH_C09_fragTellSizes() bool {
 	M := vRange(16, 1<<16)
 	mtu := vRange(0, 1<<20)
@@ -52,6 +52,7 @@ func VH_C09_fragTellSizes() bool {
 		return nil
 	}
 	s := &swarm[vAddr]{Swarm: inner, mtu: mtu, aggs: make(map[aggKey]*aggregator), msgIDs: make(map[string]uint32), tells: swarmutil.NewTellHub[vAddr]()}
+	s.msgIDs[keyForAddr(vAddr(1))] = vU32() // any number of earlier messages to this destination
 	payload := vOpaque(1<<20 + 1)
 	size = len(payload)
 	err := s.Tell(context.Background(), 1, p2p.IOVec{payload})
